@@ -35,6 +35,8 @@ pub struct ExtStats {
     pub introspection_ext: bool,
     pub roots_in_ext: usize,
     pub explicit_schema: bool,
+    /// an explicit schema definition that omits a root whose conventionally named type exists
+    pub root_omitted: bool,
     pub kinds_extended: Vec<TypeKind>,
 }
 
@@ -230,6 +232,29 @@ pub fn enrich(c: &mut Choices, doc: &mut Document) -> ExtStats {
         new_defs.push(Definition::Directive(d));
     }
 
+    // directive applications on enum values, input fields and arguments as well
+    for d in doc.defs.iter_mut() {
+        if let Definition::Type(t) = d {
+            for v in t.values.iter_mut() {
+                if c.bool(24) {
+                    v.directives.push(tag(c));
+                }
+            }
+            for f in t.input_fields.iter_mut() {
+                if c.bool(24) {
+                    f.directives.push(tag(c));
+                }
+            }
+            for f in t.fields.iter_mut() {
+                for a in f.args.iter_mut() {
+                    if c.bool(16) {
+                        a.directives.push(tag(c));
+                    }
+                }
+            }
+        }
+    }
+
     // type extensions
     for d in doc.defs.iter_mut() {
         if let Definition::Type(t) = d {
@@ -262,6 +287,11 @@ pub fn enrich(c: &mut Choices, doc: &mut Document) -> ExtStats {
         if let Definition::Schema(sd) = &mut doc.defs[i] {
             if c.bool(90) {
                 sd.directives.push(tag(c));
+            }
+            if sd.roots.len() > 1 && c.bool(40) {
+                // the root type stays defined but is no longer a root operation type
+                sd.roots.pop();
+                st.root_omitted = true;
             }
             if n > 0 {
                 let mut parts: Vec<SchemaDef> = (0..n).map(|_| SchemaDef { is_ext: true, description: None, directives: vec![], roots: vec![] }).collect();
